@@ -311,3 +311,24 @@ Qed.
 Example ex_proposals :
   emitted_proposals (run_events (sm0 true) ex_ph_hist) = [(1, 0, [9]); (1, 0, [9])].
 Proof. vm_compute. reflexivity. Qed.
+
+(** * What was emitted was signed: the (h, r, target) an emission is labelled with is the content the
+    signer signed in the same event (so the ideal signature attributed to the emission by
+    [emitted_votes] is the one the key really produced) *)
+Theorem emitted_votes_were_signed sg es key v :
+  In v (emitted_votes key (run_events (sm0 sg) es)) -> In v (signed_votes key (run_events (sm0 sg) es)).
+Proof.
+  unfold emitted_votes at 1. rewrite in_flat_map. intros (x & Hx & Hv).
+  apply in_concat in Hx. destruct Hx as (o & Ho & Hx).
+  assert (K : exists pv h r t, x = emit_of pv h r t /\ v = SVote key (kind_of pv) h r t).
+  { destruct x; simpl in Hv; try contradiction; destruct Hv as [Hv|[]]; subst v;
+      [exists true|exists false]; do 3 eexists; split; reflexivity. }
+  destruct K as (pv & h & r & t & -> & ->).
+  destruct (run_events_split _ _ _ Ho) as (es1 & e & X).
+  pose proof Hx as Hx'. rewrite X in Hx'.
+  destruct (emit_saved_first sg pv es1 e h r t Hx') as (_ & _ & _ & S & _). rewrite <- X in S.
+  unfold signed_votes. apply in_flat_map.
+  exists (if pv then OSignPrevote h r t else OSignPrecommit h r t). split.
+  - apply in_concat. exists o. split; assumption.
+  - destruct pv; simpl; left; reflexivity.
+Qed.
